@@ -386,6 +386,16 @@ func RunC10(c *Ctx) {
 		raw.Desc = fmt.Sprintf("raw bytes #%d", i)
 		sink(raw)
 	}
+	// backslash followed by every byte value, at the end and in the middle of the input, bare and
+	// inside quotes (the string machines each have their own state after a backslash)
+	for b := 0; b < 256; b++ {
+		for _, shape := range []string{"%s", "x%s", "%sx", "\"%s", "\"%s\"", "\"a%s", "[\"%s\"]", "{\"%s\":1}", "%s%s"} {
+			e := string([]byte{'\\', byte(b)})
+			raw.Input = []byte(strings.ReplaceAll(shape, "%s", e))
+			raw.Desc = fmt.Sprintf("backslash + byte 0x%02x in shape %q", b, shape)
+			sink(raw)
+		}
+	}
 	if c.Thorough() {
 		workload.W1(true, sink)
 		workload.W3(1500000, c.Seed, sink)
